@@ -2,7 +2,8 @@
 (* C18: incremental (REPL-style) evaluation equals whole-program evaluation.           *)
 (* A case is {id, pieces, obs, globals, gobs}: pieces[i] is either                      *)
 (*   [kind |-> "code", ast, hoist]   top-level statements fed as one input, or          *)
-(*   [kind |-> "rejected"]           an input the parser or compiler must refuse;       *)
+(*   [kind |-> "rejected"]           an input the parser or compiler must refuse,       *)
+(*   [kind |-> "interrupted", mark]  an input stopped through its context;              *)
 (* obs[i] is what the real compiler+VM (one compiler, one VM, REPL protocol) did with   *)
 (* it.  Specified meaning (Lang!ExecSeq threaded through the pieces): globals persist,  *)
 (* each piece yields the value of its last statement and its own output, a rejected     *)
@@ -16,6 +17,11 @@ RunFrom(pieces, i, env, s, acc) ==
   IF i > Len(pieces) THEN [res |-> acc, env |-> env, s |-> s, known |-> TRUE]
   ELSE LET p == pieces[i] IN
     IF p.kind = "rejected" THEN RunFrom(pieces, i + 1, env, s, Append(acc, [k |-> "rejected"]))
+    \* an input stopped through its context (print(mark), then an endless loop): its output so far stays, the run
+    \* ends with the context's error, and nothing else changes - the inputs after it run as if it had not been there
+    ELSE IF p.kind = "interrupted"
+    THEN RunFrom(pieces, i + 1, env, s, Append(acc, [k |-> "raise", v |-> "context deadline exceeded", msg |-> <<>>,
+                                                      out |-> Digits(p.mark) \o <<10>>]))
     ELSE LET h == Hoist(p.hoist, env, [s EXCEPT !.out = <<>>])
              r == ExecSeq(p.ast, h.env, h.s, VNil) IN
          IF r.k = "ok" THEN RunFrom(pieces, i + 1, r.env, r.s, Append(acc, Outcome(r)))
